@@ -202,6 +202,19 @@ CHECKS["C07"] = (
     "(label-adjusted) water per cut.",
     "Assumes TLC and the projection; intervals never straddle a cut (as the property's quantifier says).",
     "DESIGN.md §6 C07")
+CHECKS["C08"] = (
+    "TLA+ session state machine (Session.tla: call table with Query / Editor classes and editor effects; MC_Session "
+    "model-checks the frame condition and, with the implementation-shaped deviant split, returns the shortest "
+    "history-dependence witness) + TLC trace validation of recorded call histories on one shared object "
+    "(Trace_Session, stateful: the spec state follows the logged state)",
+    "Every history of 2 calls (all ordered pairs in the thorough tier) and random triples over 98 public calls is "
+    "executed on one shared annotation with tracked auxiliary containers; after every call the full projected state of "
+    "the object, the containers, the random state and the vocabulary sizes is logged, with the result, the result of "
+    "the same call on a fresh object rebuilt from the pre-state, and the state after the harness edited the returned "
+    "value. TLC walks each history: queries must be stuttering steps with history-free results that share no state "
+    "with the arguments; editors must have exactly their specified effect.",
+    "Assumes TLC and the projection (canonical JSON text of results). Arguments are fixed small values per call.",
+    "DESIGN.md §6 C08")
 NOT_YET = "check not built yet in this round (planned with the TLA+ technique, see DESIGN.md §6)"
 
 
